@@ -31,6 +31,7 @@ MANIFEST = {
 S = 1_000_000_000
 START = 1_000_000_000_000
 YEAR = 365 * 86400
+E_MAX = 9_200_000_000   # seconds; beyond ~9.22e9 a system_clock time_point (int64 ns) cannot hold the expiry (C18)
 
 
 def extract():
@@ -48,6 +49,7 @@ def gen_case(rng, shape, big=False) -> Case:
     now = START
     chunks = ["c1", "c2", "c3"] if shape != "single" else ["c1"]
     peer_last = {}
+    peer_ok = {}
     npeer = 0
     deadlines = []
     n = rng.randint(8, 22) if not big else rng.randint(25, 60)
@@ -61,9 +63,9 @@ def gen_case(rng, shape, big=False) -> Case:
         base = wall() // S
         k = rng.random()
         if shape == "far" and k < 0.5:
-            return base + rng.choice([mx + 1, 2 * mx, 10 * YEAR, 100 * YEAR])
+            return min(base + rng.choice([mx + 1, 2 * mx, 10 * YEAR, 100 * YEAR]), E_MAX)
         delta = rng.choice([-1, 0, 1, mn - 1, mn, mn + 1, (mn + mx) // 2, mx - 1, mx, mx + 1, mx + 2, 10 * YEAR, -YEAR])
-        return base + delta
+        return min(base + delta, E_MAX)
 
     for _ in range(n):
         r = rng.random()
@@ -76,7 +78,9 @@ def gen_case(rng, shape, big=False) -> Case:
             ops.append(f"receive {c} {expiry()} {rng.choice([1, 1, 1, 0])}")
         elif r < 0.62 and announces < 12:
             announces += 1
-            reusable = [p for p, t in peer_last.items() if now - t >= 2 * S]
+            # a sender is only reused when all its earlier announces were surely accepted: three rejected
+            # announces lock a sender out for 180 s (C21), which is not this property's business
+            reusable = [p for p, t in peer_last.items() if now - t >= 2 * S and peer_ok.get(p, False)]
             if reusable and rng.random() < 0.3:
                 p = rng.choice(reusable)
             else:
@@ -85,6 +89,7 @@ def gen_case(rng, shape, big=False) -> Case:
             peer_last[p] = now
             e = expiry()
             rem = e - wall() // S
+            peer_ok[p] = peer_ok.get(p, True) and rem > mn + 1
             attl = rng.choice([0, 1, -1, mn, mx, rem - 1, rem, rem + 1, rem + 1000, 10 * YEAR])
             asg = 1 if shape in ("pending", "far") and rng.random() < 0.8 else rng.choice([0, 1])
             ops.append(f"announce {c} {e} {p} {attl} {rng.choice([1, 1, 0])} {asg}")
